@@ -387,12 +387,25 @@ var (
 // ProfReset starts a new measurement.
 func ProfReset() { profEpoch++; profLast = nil }
 
-// ProfTop names the function with the most units of work since the last ProfReset.
+// ProfTop names where most units of work since the last ProfReset were spent: the receiver type
+// for methods ("pkg.Type", all its methods together - which method of a type does the work is an
+// implementation detail that refactoring moves around), "pkg.func" for plain functions.
 func ProfTop() (string, int) {
-	best, n := "", 0
+	agg := map[string]int{}
 	for i := range prof {
-		if prof[i].epoch == profEpoch && int(prof[i].n) > n {
-			best, n = prof[i].name, int(prof[i].n)
+		if prof[i].epoch != profEpoch {
+			continue
+		}
+		name := prof[i].name
+		if strings.Count(name, ".") >= 2 {
+			name = name[:strings.LastIndex(name, ".")]
+		}
+		agg[name] += int(prof[i].n)
+	}
+	best, n := "", 0
+	for name, k := range agg {
+		if k > n || (k == n && name < best) {
+			best, n = name, k
 		}
 	}
 	return best, n
